@@ -49,6 +49,7 @@ static double now_s()
 static std::string g_san_dir = "/verif/build/san";
 static std::string g_self;
 std::string self_exe() { return g_self; }
+std::string san_dir() { return g_san_dir; }
 
 static void quiet_stdio()
 {
@@ -207,7 +208,9 @@ static Outcome run_fresh(const Plan & plan, const RunCtx & ctx, double timeout_s
   }
   size_t nl = buf.find('\n');
   if (nl != std::string::npos && Outcome::parse_line(buf.substr(0, nl), o)) {
-    if (WIFEXITED(st) && WEXITSTATUS(st) == 0) { unlink((g_san_dir + "/stderr." + std::to_string((long)pid)).c_str()); return o; }
+    // (ThreadSanitizer turns the exit status into 78 when it has reported anything: the suite has
+    // already converted the report into a verdict)
+    if (WIFEXITED(st) && (WEXITSTATUS(st) == 0 || WEXITSTATUS(st) == 78)) { unlink((g_san_dir + "/stderr." + std::to_string((long)pid)).c_str()); return o; }
   }
   o = Outcome();
   o.verdict = "crash"; o.prop = ctx.prop; o.cls = "crash";
@@ -270,6 +273,7 @@ static void worker_main(int in_fd, int out_fd, u64 seed, const RunCtx & ctx)
       if (w < 0) { if (errno == EINTR) continue; _exit(3); }
       off += (size_t)w;
     }
+    if (o.ctr.count("process_tainted")) _exit(0); // e.g. threads parked forever after a simulated deadlock
   }
   _exit(0);
 }
@@ -539,6 +543,13 @@ static int cmd_check(std::map<std::string, std::string> & args)
             record(w.suite, w.idx, o, w.hist);
             if (w.hist.size() < 50000) w.hist.push_back({w.suite, w.idx});
             w.busy = false; active--;
+            if (o.ctr.count("process_tainted")) {
+              // the worker retires itself after this result: replace it
+              close(w.to); close(w.from); g_parent_fds.erase(w.to); g_parent_fds.erase(w.from);
+              int st2 = 0; waitpid(w.pid, &st2, 0);
+              Worker nw;
+              if (spawn(nw, seed, ctx)) w = nw; else { w.pid = -1; break; }
+            }
             if (assign(w)) active++;
           }
         } else dead = true;
